@@ -93,7 +93,8 @@ fn base_cfg(prop: &str, world: WorldKind, colls: u8, oracles: u32, r: &mut Rng) 
         _ => *r.pick(&[0usize, 1, 8, 8, 9, 64, 1000]),
     };
     let key_lo = *r.pick(&[0, 0, -5, 1000, -(1 << 20), i32::MAX - (1 << 21)]);
-    let t0 = *r.pick(&[0, 0, 0, 5, 1000, 1 << 30]);
+    // the clock is a sweep-line coordinate: negative origins are as ordinary as positive ones
+    let t0 = *r.pick(&[0, 0, 0, 5, 1000, 1 << 30, -3, -1000, i32::MIN + 7]);
     let (seg_ty, seg_lo, seg_hi) = if world == WorldKind::Seg { draw_seg_domain(r) } else { (0, 0, 31) };
     let sweep_mode = if matches!(world, WorldKind::Map | WorldKind::Set) && r.chance(1, 3) { 1 } else { 0 };
     // a third of the expiring-key runs use the narrow instantiation (8-bit clock)
@@ -102,11 +103,12 @@ fn base_cfg(prop: &str, world: WorldKind, colls: u8, oracles: u32, r: &mut Rng) 
     let key_ty = match world {
         WorldKind::Key => r.chance(1, 3) as u8,
         WorldKind::Map | WorldKind::Set => (r.chance(1, 4) && oracles & O_TORN == 0) as u8,
-        WorldKind::Seg => 0,
+        // a third of the segment-tree runs: 8-bit expirations, a 20-byte value
+        WorldKind::Seg => r.chance(1, 3) as u8,
     };
     // the plain map packs (key offset, version) into its 32-bit value for universes up to 1024
     // keys; over larger ones the value is the (unique) version alone
-    let t0 = if key_ty == 1 { *r.pick(&[0, 0, 0, 5, 100, 250]) } else { t0 };
+    let t0 = if key_ty == 1 && world != WorldKind::Map && world != WorldKind::Set { *r.pick(&[0, 0, 0, 5, 100, 250]) } else { t0 };
     Cfg { prop: prop.to_string(), world, colls, oracles, cap, key_lo, universe, seg_ty, seg_lo, seg_hi, t0, sweep_mode, key_ty }
 }
 
@@ -289,7 +291,7 @@ pub fn draw_plan(prop: &str, index: u64, r: &mut Rng, thorough: bool) -> RunPlan
         cfg.cap = if thorough && r.chance(1, 2) { (1 << 24) + 1 } else { (1 << 23) + 9 };
         cfg.universe = cfg.universe.min(64);
         if cfg.world == WorldKind::Key {
-            cfg.t0 = cfg.t0.min(250);
+            cfg.t0 = cfg.t0.clamp(0, 250);
         }
         // short where every operation is followed by a snapshot of the (huge) arena
         len = if cfg.has(O_STRUCT | O_ARENA) { 10 + r.below(6) as usize } else { 40 + r.below(120) as usize };
